@@ -115,7 +115,9 @@ def isPrefixOfStr : List String → List String → Bool
   | _ :: _, [] => false
   | a :: as, b :: bs => a == b && isPrefixOfStr as bs
 
-def cfgOf (lit preauth : String) : Framing.Cfg := { plus := lit == "plus", preauth := preauth == "1" }
+/-- lit = minus | plus | none, with the suffix "/af" when the backend's Append fails unread -/
+def cfgOf (lit preauth : String) : Framing.Cfg :=
+  { plus := lit.startsWith "plus", preauth := preauth == "1", appendFails := lit.endsWith "/af" }
 
 /-- model vs implementation: observable events, end of connection, call log -/
 def agree (m : ModelOut) (implWire : List String) (endi : String) (implCalls : List String) : Bool :=
